@@ -177,3 +177,7 @@ impl Position {
 //@ end
 }
 }
+// path mirror: the repository refers to these items as crate::state::*
+pub mod state {
+pub use crate::state_core::*;
+}
